@@ -121,6 +121,16 @@ pub fn seeds(tier: Tier) -> Vec<(Seed, Level)> {
             out.push((mutate::seed(&format!("ExtInst:{}:{}", setname, n), &[imp, f, l], &ext, &[r, fe]), Level::Framing));
         }
     }
+    // literal consumers behind int / float types of extreme widths (size arithmetic at the range boundary)
+    for w in [0u32, 1, 7, 9, 31, 33, 63, 65, 127, 129, 0x7FFF_FFFF, 0x8000_0000, 0xFFFF_FFE0, 0xFFFF_FFE1, 0xFFFF_FFFF] {
+        for (tname, ty) in [("int", Inst::new("TypeInt", None, Some(10), vec![Arg::Lit32(w), Arg::Lit32(1)])), ("float", Inst::new("TypeFloat", None, Some(10), vec![Arg::Lit32(w)]))] {
+            let c = Inst::new("Constant", Some(10), Some(20), vec![Arg::Lit32(5)]);
+            out.push((mutate::seed(&format!("Constant:behind-{}{:#x}", tname, w), &[ty.clone()], &c, &[]), Level::Framing));
+            let sel = Inst::new("Undef", Some(10), Some(21), vec![]);
+            let sw = Inst::new("Switch", None, None, vec![Arg::IdRef(21), Arg::IdRef(40), Arg::Lit32(1), Arg::IdRef(41)]);
+            out.push((mutate::seed(&format!("Switch:behind-{}{:#x}", tname, w), &[ty.clone(), sel], &sw, &[]), Level::Framing));
+        }
+    }
     // constants whose type is declared after them, or twice with different widths: the loader accepts these,
     // and the disassembler's whole-section tracker then pairs a one-word literal with any declared width
     for w in [0u32, 1, 8, 16, 31, 32, 33, 64, 128, 0xFFFF_FFFF] {
